@@ -4,6 +4,7 @@ import (
 	"context"
 	"errors"
 	"fmt"
+	"io"
 	"net"
 	"strings"
 	"sync"
@@ -701,6 +702,23 @@ func (w *c20world) raceFix(st c20step, fresh map[int]bool, accAlive bool) {
 	}
 }
 
+// c20timeoutErr is an accept error of the kind a listener with a deadline reports.
+type c20timeoutErr struct{}
+
+func (c20timeoutErr) Error() string   { return "c20 accepter: i/o timeout" }
+func (c20timeoutErr) Timeout() bool   { return true }
+func (c20timeoutErr) Temporary() bool { return true }
+
+// c20acceptErrors are the non-closing failures the scripted accepter reports (one per
+// script, chosen by its hash): whatever its flavour, Loop must return that very error.
+var c20acceptErrors = []error{
+	errors.New("c20 accepter: scripted non-closing failure"),
+	c20timeoutErr{},
+	&net.OpError{Op: "accept", Net: "tcp", Err: c20timeoutErr{}},
+	context.DeadlineExceeded,
+	io.ErrUnexpectedEOF,
+}
+
 // c20exec runs one script in a bubble.
 func c20exec(c *vt.Ctx, v c20var, script c20script, ctrl *sched.Controller) {
 	var w *c20world
@@ -713,7 +731,7 @@ func c20exec(c *vt.Ctx, v c20var, script c20script, ctrl *sched.Controller) {
 	peer.Bubble(c, ctrl, func() {
 		log := peer.NewLog()
 		w = &c20world{c: c, ctrl: ctrl, log: log, v: v, m: &c20model{v: v}, hrec: map[string]c20hrec{},
-			script: script, errOther: errors.New("c20 accepter: scripted non-closing failure")}
+			script: script, errOther: c20acceptErrors[int(vt.Hash64(script.String()+v.String())%uint64(len(c20acceptErrors)))]}
 		w.mon = &peer.Mon{C: c, Log: log}
 		w.acc = &c20accepter{w: w, wake: make(chan struct{})}
 		w.ctx, w.cancel = context.WithCancel(context.Background())
